@@ -35,8 +35,10 @@ def harness_lines(out):
     return [json.loads(l) for l in out.splitlines() if l.startswith("{")]
 
 
-def report(chk, lines, stage, only_restore=False):
+def report(chk, lines, stage, only_restore=False, key_filter=None):
     for m in lines:
+        if key_filter and m.get("kind") == "mismatch" and not key_filter(m["key"]):
+            continue
         # mismatches that only appear after a snapshot/restore belong to C13; everything else to the family's property
         if m.get("kind") == "mismatch" and (("restore" in m["key"]) == only_restore):
             chk.finding(m["key"], {"stage": stage, "ctx": m.get("ctx"), "expected": m.get("expected"),
@@ -55,7 +57,7 @@ def mc(chk, cfg, what, consts, workers=None, timeout=3000):
     return r
 
 
-def emit_replay(chk, yv, tag, jobs, nproc=6, only_restore=False, late=False):
+def emit_replay(chk, yv, tag, jobs, nproc=6, only_restore=False, late=False, key_filter=None):
     """jobs: list of dicts of write_cfg arguments (one TLC run each, one worker each).
     Emits behaviours with TLC and replays them on the real crate."""
     wd = workdir(tag)
@@ -89,7 +91,7 @@ def emit_replay(chk, yv, tag, jobs, nproc=6, only_restore=False, late=False):
             chk.finding("model:%s:%s" % (name, r.violation), {"stage": "A:emit", "counterexample": r.cex})
             continue
         chk.add_tlc(name, r, {})
-        report(chk, lines, "A:replay", only_restore)
+        report(chk, lines, "A:replay", only_restore, key_filter)
         summ = [l for l in lines if l.get("kind") == "summary"][0]
         total_rows += len(rows)
         total_calls += summ["extra"]["calls"]
